@@ -13,6 +13,7 @@ import (
 func init() {
 	core.Ops["pq"] = implParseQuery
 	core.Ops["ps"] = implParseSchema
+	core.Ops["pss"] = implParseSchemas
 }
 
 func dumpErr(err error) string {
@@ -65,4 +66,35 @@ func implParseSchema(args [][]byte) string {
 		return "ok NIL"
 	}
 	return "ok " + DumpSchemaDoc(doc, wp, nil)
+}
+
+// args: wp, limit, sources...; each source is one flag byte ('1' = built-in) followed by its text
+func implParseSchemas(args [][]byte) string {
+	wp := string(args[0]) == "1"
+	limit, _ := strconv.Atoi(string(args[1]))
+	var srcs []*ast.Source
+	idx := map[*ast.Source]int{}
+	for i, a := range args[2:] {
+		src := &ast.Source{Name: "s" + strconv.Itoa(i+1) + ".graphql"}
+		if len(a) > 0 {
+			src.BuiltIn = a[0] == '1'
+			src.Input = string(a[1:])
+		}
+		idx[src] = i
+		srcs = append(srcs, src)
+	}
+	var doc *ast.SchemaDocument
+	var err error
+	if limit == 0 {
+		doc, err = parser.ParseSchemas(srcs...)
+	} else {
+		doc, err = parser.ParseSchemasWithLimit(limit, srcs...)
+	}
+	if err != nil {
+		return dumpErr(err)
+	}
+	if doc == nil {
+		return "ok NIL"
+	}
+	return "ok " + DumpSchemaDoc(doc, wp, idx)
 }
